@@ -71,14 +71,16 @@ pub fn k(parts: &[&str]) -> K {
 
 /// Keys that are prefixes of one another, with empty components.
 pub fn key_alphabet() -> Vec<K> {
-    vec![k(&[]), k(&[""]), k(&["a"]), k(&["a", ""]), k(&["a", "a"]), k(&["ab"]), k(&["a", "ab"])]
+    // the last key shares its LAST component with ["a","a"] while differing in the first one
+    // (a prefix test that looks at one component only confuses the two)
+    vec![k(&[]), k(&[""]), k(&["a"]), k(&["a", ""]), k(&["a", "a"]), k(&["ab"]), k(&["a", "ab"]), k(&["ab", "a"])]
 }
 
 /// Prefix probes: every key of the alphabet (all their prefixes are keys too) plus prefixes that
 /// match nothing or sit between keys.
 pub fn prefix_probes() -> Vec<K> {
     let mut v = key_alphabet();
-    v.extend([k(&["b"]), k(&["a", "b"]), k(&["", "x"]), k(&["a", "a", ""])]);
+    v.extend([k(&["b"]), k(&["a", "b"]), k(&["", "x"]), k(&["a", "a", ""]), k(&["b", "a"]), k(&["", "a"])]);
     v
 }
 
